@@ -35,12 +35,33 @@ class Row:
 
 
 class Frame:
-    def __init__(self, rows):
+    """the part of a pandas DataFrame read_excel relies on; anything else is refused (harness error), not guessed"""
+    def __init__(self, rows, index=None):
         self.rows = rows
+        self.index = list(range(len(rows))) if index is None else index
 
     def iterrows(self):
-        for i, r in enumerate(self.rows):
+        for i, r in zip(self.index, self.rows):
             yield (i, r)
+
+    def __len__(self):
+        return len(self.rows)
+
+    def dropna(self, axis=0, how='any', **kw):
+        from symx.proxy import Escape
+        if axis not in (0, 'index') or kw:
+            raise Escape('frame stub: dropna(%r, %r) not modelled' % (axis, kw))
+        keep, idx = [], []
+        for i, r in zip(self.index, self.rows):
+            flags = [e if isinstance(e, bool) else bool(e) for (_, _, e) in r.cells]
+            if not (all(flags) if how == 'all' else any(flags)):
+                keep.append(r)
+                idx.append(i)
+        return Frame(keep, idx)
+
+    def __getattr__(self, name):
+        from symx.proxy import Escape
+        raise Escape('frame stub: DataFrame.%s is not modelled' % name)
 
 
 def _read(ctx, rows):
